@@ -59,8 +59,12 @@ func RandomCase(c *core.Case, prop string, maxN int, prefixMax int) {
 	restarts := r.Intn(3) == 0
 	// a sixth of the cases start with the chain time ahead of every clock (a genesis timestamp in the future): vote
 	// times are then bounded from below by the block's time, not by the clock
+	// Only in networks without an adversary-controlled validator: nil votes carry the signer's clock time, and a commit
+	// in which a faulty validator's (arbitrary) timestamp and one correct nil precommit together hold half of the power puts
+	// the next block's time at that clock time, i.e. before its parent's - a consequence of clocks that lag the chain
+	// time by more than any timeout, which is outside the timing assumption of the property (same upstream).
 	var gen func(*genesis.Genesis)
-	if r.Intn(6) == 0 {
+	if r.Intn(6) == 0 && len(cfg.Byz) == 0 {
 		gen = func(g *genesis.Genesis) { g.Timestamp = g.Timestamp.Add(time.Hour) }
 		cfg.Label += " genesis-ahead-of-clocks"
 		run.Count("cases_with_chain_time_ahead_of_the_clocks", 1)
